@@ -210,9 +210,19 @@ class GuardFlow:
                             if a2 is not None and a2 in st and c.mode == 'bool':
                                 st[a] = st[a2] if c.positive else (not st[a2])
             if self.kills:
-                for a in self.kills(fn, bb, s) or ():
-                    st.pop(a, None)
-                    st['W:' + a] = True
+                self._apply_kills(st, self.kills(fn, bb, s))
+
+    @staticmethod
+    def _apply_kills(st, ks):
+        if not ks:
+            return
+        items = ks.items() if isinstance(ks, dict) else [(a, None) for a in ks]
+        for a, v in items:
+            st['W:' + a] = True
+            if v is None:
+                st.pop(a, None)
+            else:
+                st[a] = v
 
     def _out_edges(self, bb, st):
         """Yield (succ, new_state_dict) for each feasible outgoing edge."""
@@ -223,9 +233,19 @@ class GuardFlow:
         k = t['k']
         if k == 'switch':
             d = t['d']
-            # switch on a merge temp?
-            if d['k'] in ('copy', 'move') and 'p' not in d['pl'] and d['pl']['l'] in self._multi_def_bools:
-                l = d['pl']['l']
+            # switch on a merge temp (possibly through a `tmp = copy x` made in this very block)?
+            ml = None
+            if d['k'] in ('copy', 'move') and 'p' not in d['pl']:
+                ml = d['pl']['l']
+                if ml not in self._multi_def_bools:
+                    df = du(fn).single_def(ml)
+                    ml = None
+                    if df and df['kind'] == 'assign' and df['bb'] == bb and df['rv']['k'] == 'use' \
+                            and df['rv']['op']['k'] in ('copy', 'move') and 'p' not in df['rv']['op']['pl'] \
+                            and df['rv']['op']['pl']['l'] in self._multi_def_bools:
+                        ml = df['rv']['op']['pl']['l']
+            if ml is not None:
+                l = ml
                 key = 'L:%d' % l
                 alias = st.get('A:%d' % l)
                 lvals = [v for v, _ in t['ts']]
@@ -286,12 +306,10 @@ class GuardFlow:
         if k == 'call':
             ns = st
             if self.kills:
-                ks = list(self.kills(fn, bb, t) or ())
+                ks = self.kills(fn, bb, t)
                 if ks:
                     ns = dict(st)
-                    for a in ks:
-                        ns.pop(a, None)
-                        ns['W:' + a] = True
+                    self._apply_kills(ns, ks)
             if 't' in t:
                 yield t['t'], ns
             return
